@@ -83,6 +83,11 @@ impl Names {
 
     /// model value token -> JSON value handed to the implementation
     pub fn val_in(&mut self, tok: &str) -> Value {
+        if let Some(c) = self.meaning.get(tok).and_then(|m| m.get("cas")).cloned() {
+            // a plain value shaped like the file format's CAS tag
+            let v = self.val_in(c["v"].as_str().unwrap_or(""));
+            return json!({"Cas": [v, c["n"].as_u64().unwrap_or(0)]});
+        }
         if let Some(m) = self.meaning.get(tok).cloned() {
             let gg = m.get("gg").and_then(|g| g.as_array()).cloned().unwrap_or_default();
             let lw = m.get("lw").and_then(|g| g.as_array()).cloned().unwrap_or_default();
@@ -142,6 +147,18 @@ impl Names {
                     }
                 }
                 format!("j:{}", v)
+            }
+            Value::Object(o) if o.len() == 1 && o.get("Cas").and_then(|c| c.as_array()).map(|a| a.len()) == Some(2) => {
+                let inner = self.val_out(&o["Cas"][0]);
+                let n = o["Cas"][1].as_u64();
+                for (tok, m) in &self.meaning {
+                    if let Some(c) = m.get("cas") {
+                        if c["v"].as_str() == Some(inner.as_str()) && c["n"].as_u64() == n {
+                            return tok.clone();
+                        }
+                    }
+                }
+                format!("j:{v}")
             }
             other => format!("j:{other}"),
         }
